@@ -28,6 +28,7 @@ inductive Err where
   | broadcastDependency      -- 'broadcasted variable has a data dependency on the scan body'
   | unbatchedOutExpected     -- jax.vmap: out_axes None for a batched output (ValueError)
   | unmappedOutput           -- 'unmapped output variables'
+  | broadcastOutUnsupported  -- 'check_constancy_invariants=False does not support broadcast non-carry function outputs'
   | stackMismatch            -- per-iteration results of different structure (cannot arise from one trace)
   | arity                    -- in_axes / out_axes tuple does not match the arguments / results
   | body (tag : String)      -- the loop body itself failed
@@ -45,6 +46,7 @@ def Err.cls : Err → String
   | .broadcastDependency => "ValueError"
   | .unbatchedOutExpected => "ValueError"
   | .unmappedOutput => "ValueError"
+  | .broadcastOutUnsupported => "ValueError"
   | .stackMismatch => "StackMismatch"
   | .arity => "ValueError"
   | .body t => t
@@ -347,6 +349,11 @@ inductive AxesTree where
   | perArg (as : List (Option Int))     -- `in_axes=(0, broadcast, -1)`
   deriving Repr, DecidableEq, Inhabited
 
+/-- `broadcast in jax.tree_util.tree_leaves(out_axes)` -/
+def AxesTree.hasBroadcast : AxesTree → Bool
+  | .uniform a => a.isNone
+  | .perArg as => as.any (·.isNone)
+
 def AxesTree.expand (t : AxesTree) (k : Nat) : Except Err (List (Option Int)) :=
   match t with
   | .uniform a => .ok (List.replicate k a)
@@ -574,6 +581,21 @@ def axesScanTail {α : Type} [Inhabited α] (reverse : Bool) (verdict : Bool) (i
   -- the loop proper, with the broadcast outputs as the new broadcast inputs
   axesLoop reverse outYAxes outVarAxes xs fn init r0 n
 
+/-- `simple_scan_fn` (axes_scan.py:196-225), the path taken with `check_constancy_invariants=False`: no
+broadcast pass and no constancy check — the broadcast inputs are used as they are and returned unchanged, the
+body's broadcast outputs are dropped, `broadcast` out axes are refused; otherwise the same `lax.scan` (same
+`length`, `reverse`, `unroll`) and the same transposes -/
+def axesScanSimple {α : Type} [Inhabited α] (length : Option Nat) (reverse : Bool) (outAxes : AxesTree)
+    (outVarAxes : List Int) (fn : ScanFn α) (bIn : Vars α) (init : Vars α × List (Arr α)) (xs : ScanXs α) :
+    Except Err (StepOut α) := do
+  if outAxes.hasBroadcast then throw .broadcastOutUnsupported else do
+  let n ← xs.dims >>= jaxLength length
+  if n = 0 then throw (.body "EmptyLoop") else do
+  let res ← laxScan n reverse xs.at (scanBody fn bIn) sameStruct init
+  let outYAxes ← outAxes.expand ((res.2.head?.map (fun o => o.1.length)).getD 0)
+  let out ← collectOuts stackFront outYAxes outVarAxes [] res.2
+  pure (bIn, res.1, out)
+
 /-- `axes_scan.scan(fn, in_axes, out_axes, length, reverse, unroll)(broadcast_in, init, *args)` with
 `in_axes = (variable_in_axes, rng_axes, in_axes)` and `out_axes = (out_axes, variable_out_axes)`.
 `verdict` is the outcome of the constancy check of the broadcast pass (the tracing mechanism itself is
@@ -581,11 +603,13 @@ not modelled); when it passes, the constants it returns are the broadcast output
 evaluated on the inputs of the first iteration.  An empty loop is outside the modelled domain.
 `initOnly` stops after the broadcast pass (used by the driver to compute `verdict` from a tainted run;
 the theorems are about `initOnly = false`). -/
-def axesScan {α : Type} [Inhabited α] (length : Option Nat) (reverse : Bool) (verdict : Bool) (initOnly : Bool)
+def axesScan {α : Type} [Inhabited α] (checkConst : Bool) (length : Option Nat) (reverse : Bool) (verdict : Bool)
+    (initOnly : Bool)
     (inVarAxes : List Int) (inArgAxes : List (Option Int)) (outAxes : AxesTree) (outVarAxes : List Int)
     (fn : ScanFn α) (bIn : Vars α) (init : Vars α × List (Arr α)) (svs : List (Vars α)) (rngs : List RngG)
     (args : List (Arr α)) : Except Err (StepOut α) := do
   let xs ← prepXs inVarAxes inArgAxes svs rngs args
+  if !checkConst then axesScanSimple length reverse outAxes outVarAxes fn bIn init xs else do
   -- what lax.scan will find out about the number of iterations (it is called after the broadcast pass)
   let nE : Except Err Nat := xs.dims >>= jaxLength length
   axesScanTail reverse verdict initOnly outAxes outVarAxes fn bIn init xs nE (firstIndex reverse nE)
@@ -609,6 +633,7 @@ structure ScanCfg where
   length : Option Nat
   reverse : Bool
   unroll : Nat
+  checkConst : Bool                      -- check_constancy_invariants
   deriving Repr
 
 def ScanCfg.inAx (cfg : ScanCfg) : List AxisSpec := cfg.axes.filter (·.isIn)
@@ -633,7 +658,7 @@ def liftScanCore {α : Type} [Inhabited α] (cfg : ScanCfg) (verdict : Bool) (in
   let dLength ← decideLength cfg.length sizes
   let rngArrs := splitGroups rngGroups (cfg.splitRngs.map (·.2)) dLength
   let inArgAxes ← cfg.inAxes.expand args.length
-  let r ← axesScan cfg.length cfg.reverse verdict initOnly (cfg.inAx.map (·.axis)) inArgAxes cfg.outAxes
+  let r ← axesScan cfg.checkConst cfg.length cfg.reverse verdict initOnly (cfg.inAx.map (·.axis)) inArgAxes cfg.outAxes
       (cfg.outAx.map (·.axis)) (scanned mutF cfg.outFs body)
       (groups.getD 0 []) (groups.getD 1 [], init) (groups.drop 2) rngArrs args
   pure { vars := publish scopeMut outer (r.1 :: r.2.1.1 :: r.2.2.2), carry := r.2.1.2, ys := r.2.2.1 }
@@ -800,7 +825,8 @@ structure RematCfg where
 
 def RematCfg.scanCfg (rc : RematCfg) (l : Nat) : ScanCfg :=
   { bcast := rc.bcast, carry := rc.carry, axes := rc.axes, splitRngs := rc.splitRngs,
-    inAxes := .uniform (some 0), outAxes := .uniform (some 0), length := some l, reverse := false, unroll := 1 }
+    inAxes := .uniform (some 0), outAxes := .uniform (some 0), length := some l, reverse := false, unroll := 1,
+    checkConst := true }
 
 /-- `remat_scan(body_fn, lengths, …)` as a scope function `carry ↦ carry`; the body's `ys` are dropped
 (`return body_fn(scope, carry), ()`) -/
